@@ -589,6 +589,13 @@ def r07g(ctx):
                     if sets:
                         guard = flag
                 p_ = parent(p_)
+            if not guard:
+                from ..astx import dominating_conditions as _dc, flatten_conditions as _fc
+                for t, pol in _fc(_dc(c)):
+                    if not pol and isinstance(t, ast.Name) and t.id in globs and any(
+                            isinstance(a, ast.Assign) and isinstance(a.targets[0], ast.Name) and a.targets[0].id == t.id
+                            and isinstance(a.value, ast.Constant) and a.value.value is True for a in walk_no_nested(f.node)):
+                        guard = t.id
             if guard:
                 ctx.proved("R07g", f.file, f.short, c, f"{name} once", f"`{name}()` runs only while the module flag `{guard}` is unset, and sets it")
             else:
